@@ -55,6 +55,9 @@ func Decorate(r *core.Rng, s *Schema, d *Doc, p float64, pBad float64) {
 					}
 					if !leaf && s.IsAbstract(sel.Type.Base()) && (onlyFields || r.Chance(pBad)) && r.Chance(0.3) {
 						opts = append(opts, fmt.Sprintf("struct: %v", r.Chance(0.8)))
+					} else if !leaf && s.IsAbstract(sel.Type.Base()) && r.Chance(0.4) {
+						// opting a field (back) out is documented and must leave it abstract
+						opts = append(opts, "struct: false")
 					}
 					if !leaf && (oneSpread && r.Chance(0.5) || r.Chance(pBad)) {
 						opts = append(opts, fmt.Sprintf("flatten: %v", r.Chance(0.8)))
@@ -192,7 +195,15 @@ func RandomCfg(r *core.Rng, s *Schema) *CfgOpts {
 				c.Bindings[t.Name] = fmt.Sprintf("example.com/%c/types.T%d", 'a'+byte(k), k)
 			case 2:
 				c.Bindings[t.Name] = fmt.Sprintf("example.com/m.M%d", k)
-				c.Marshalers[t.Name] = [2]string{fmt.Sprintf("example.com/m.Marshal%d", k), fmt.Sprintf("example.com/m.Unmarshal%d", k)}
+				mu := [2]string{fmt.Sprintf("example.com/m.Marshal%d", k), fmt.Sprintf("example.com/m.Unmarshal%d", k)}
+				// both are documented as independently optional
+				switch r.Intn(4) {
+				case 0:
+					mu[0] = ""
+				case 1:
+					mu[1] = ""
+				}
+				c.Marshalers[t.Name] = mu
 			default:
 				c.Bindings[t.Name] = "map[string]interface{}"
 			}
@@ -287,6 +298,10 @@ func DecorateSafe(r *core.Rng, s *Schema, d *Doc, p float64) {
 				}
 				if !leaf && s.IsAbstract(sel.Type.Base()) && onlyFields && r.Chance(0.4) {
 					opts = append(opts, "struct: true")
+				} else if !leaf && s.IsAbstract(sel.Type.Base()) && onlyFields && r.Chance(0.4) {
+					// the documented way to opt one field back out (the option, with either value,
+					// is documented as allowed only when no fragments are in play)
+					opts = append(opts, "struct: false")
 				}
 				if !leaf && len(sel.Sub) == 1 && sel.Sub[0].Kind == "spread" && matches(sel.Type.Base(), fragOn[sel.Sub[0].Name]) && r.Chance(0.6) {
 					opts = append(opts, "flatten: true")
@@ -294,6 +309,16 @@ func DecorateSafe(r *core.Rng, s *Schema, d *Doc, p float64) {
 				if len(opts) > 0 {
 					sel.Comment = append(sel.Comment, "@genqlient("+strings.Join(opts, ", ")+")")
 				}
+			}
+			noFrags := true
+			for _, x := range sel.Sub {
+				if x.Kind != "field" {
+					noFrags = false
+				}
+			}
+			if p > 0 && noFrags && sel.Kind == "field" && len(sel.Comment) == 0 && keyCount[sel.Key()] == 1 && sel.Type != nil && s.IsAbstract(sel.Type.Base()) && r.Chance(0.3) {
+				// explicitly opting one abstract field out of the struct form is documented
+				sel.Comment = append(sel.Comment, "@genqlient(struct: false)")
 			}
 			decorateSels(sel.Sub)
 		}
